@@ -58,7 +58,7 @@ def generate(wd, cfg, tag, **kw):
 
 
 LAYOUT_ACTIONS = ["Append", "Remove", "Compact", "Rewind", "Reopen", "Subtree"]
-LAYOUT_PROBES = ["leafshift", "climb", "cleanup", "rewind", "noguard"]
+LAYOUT_PROBES = ["leafshift", "climb", "cleanup", "rewind", "noguard", "discard"]
 
 
 def run_layout(rep, wd, thorough, replay_case=None):
